@@ -5,6 +5,7 @@ import Enc.Driver.Iso
 import Enc.Driver.Thrift
 import Enc.Driver.Json
 import Enc.Driver.JsonBuf
+import Enc.Driver.Conc
 /-!
 encdriver: reads `op<TAB>arg…` lines on stdin, answers `M<TAB>S<TAB>K` per line
 (model observable, spec observable, comma-separated Known classes), `bad-op` for what it cannot parse.
@@ -18,6 +19,7 @@ def dispatch (op : String) (args : List String) : Option (String × String × St
   else if op.startsWith "proto." then Driver.Proto.handle op args
   else if op.startsWith "iso." then Driver.Iso.handle op args
   else if op.startsWith "thrift." then Driver.Thrift.handle op args
+  else if op.startsWith "conc." then Driver.Conc.handle op args
   else if op == "json.bufappend" then Driver.JsonBuf.handle op args
   else if op.startsWith "json." then Driver.Json.handle op args
   else none
